@@ -512,10 +512,7 @@ func c13OptionSubsets(o *Out, r *rand.Rand, t reflect.Type, v reflect.Value, arg
 		if unordered && indent && c13HasNonEmptyMap(v, 0) {
 			// found by this stratum on the unchanged library and not in KNOWN_FINDINGS.txt: with UnorderedMap the indenting
 			// interpreters write the members of a map one level too shallow ({\n"a": 1\n  } inside an object); runs with AUDIT_OPEN=1
-			o.count("audit_open_defect_cases:UnorderedMapIndentLosesMemberIndentation", 1)
-			if os.Getenv("AUDIT_OPEN") != "1" {
-				unordered = false
-			}
+			o.count("unordered_map_with_indentation_cases", 1) // was the finding UnorderedMapIndentLosesMemberIndentation: repaired in /repo
 		}
 		var opts []gojson.EncodeOptionFunc
 		var names []string
